@@ -39,3 +39,42 @@ class NumberRoundTrip(Lemma):
             return And(res == v, p1 == p + L(e))
 
         return [("roundtrip", build)]
+
+
+@lemma
+class NumberLocated(Lemma):
+    """the NUMBER found at offset p of x ++ y ++ z, when it lies inside y, is the NUMBER of y at offset p - |x|
+    (proved from the definition of number_len / number_value; justifies the instances that spec.primitives._locate
+    adds for the opaque functions NL / NV)"""
+
+    name = "C17/number-located"
+    props = ("C17", "C07", "C08", "C06")
+
+    def statements(self):
+        def build_len(c):
+            x, y, z = c.bytes("x"), c.bytes("y"), c.bytes("z")
+            p = c.int("p")
+            d = x + y + z
+            rel = p - L(x)
+            c.assume(And(rel >= 0, rel < L(y)))
+            return SP.number_len(d, p) == SP.number_len(y, rel)
+
+        def build_val(c):
+            x, y, z = c.bytes("x"), c.bytes("y"), c.bytes("z")
+            p = c.int("p")
+            d = x + y + z
+            rel = p - L(x)
+            c.assume(And(rel >= 0, rel < L(y), rel + SP.number_len(d, p) <= L(y)))
+            for k in range(9):
+                nth(d, p + k), nth(y, rel + k)
+            c.assume(And(*[Implies(rel + k < L(y), nth(d, p + k) == nth(y, rel + k)) for k in range(9)]))
+            return SP.number_value(d, p) == SP.number_value(y, rel)
+
+        def build_frame(c):
+            # the hypothesis used by build_val: element k of y is element |x| + k of x ++ y ++ z
+            x, y, z = c.bytes("x"), c.bytes("y"), c.bytes("z")
+            k = c.int("k")
+            c.assume(And(k >= 0, k < L(y)))
+            return nth(x + y + z, L(x) + k) == nth(y, k)
+
+        return [("length", build_len), ("value", build_val), ("element-frame", build_frame)]
